@@ -35,6 +35,17 @@ def chartCfg (j : Json) : R ChartCfg := do
   pure { strict, audit, permitEmpty := pe, accounts, commodities := comms, tags, equityTarget := et,
          equityAccount := ea, reportCommodity := rc, priceDb := pd }
 
+/-- output kind `probe` of op `run`: which probe commodities `get_commodity` knows after the load and, per
+    probe account, in which of them `get_txn_account` finds the account -/
+def outProbe : OutputFn := fun j st _ => do
+  let p ← field j "probe"
+  let accts ← (← arr (← field p "accounts")).mapM path
+  let comms ← strList (← field p "commodities")
+  let bit (b : Bool) : Char := if b then '1' else '0'
+  let known := String.ofList (comms.map (fun c => bit (st.getCommodity c).isOk))
+  let rows := accts.map (fun a => Json.str (String.ofList (comms.map (fun c => bit (st.getTxnAccount a c).isOk))))
+  pure (okV (Json.mkObj [("comms", .str known), ("accts", .arr rows.toArray)]))
+
 def runOne (table : List (String × OutputFn)) (j : Json) (rs : List RawTxn) (want : List String) (cfg : Json) :
     R Json := do
   let c ← chartCfg cfg
